@@ -2,27 +2,69 @@
   C13  The circular buffer is a loss-free FIFO with exact drop accounting.
   PROPERTY THEOREMS ONLY (helper lemmas live in PdshVerif/Cbuf/*.lean).
 
-  Model:  PdshVerif/Cbuf/Model.lean  (index-level mirror of src/pdsh/cbuf.c)
-  Spec:   PdshVerif/Cbuf/Spec.lean   (a plain FIFO `q : List UInt8` with a capacity)
+  Model:  PdshVerif/Cbuf/Model.lean, ModelLine.lean  (index-level mirror of src/pdsh/cbuf.c, the
+          WHOLE public header; the growth policy of `cbuf_grow` is a PARAMETER, `Policy`)
+  Spec:   PdshVerif/Cbuf/Spec.lean (a plain FIFO `q : List UInt8` with a capacity),
+          SpecReplay.lean (+ the history of consumed bytes still held, + the flag "something was
+          lost"), SpecLine.lean (line-level replay on that history)
 
-  What is proved (for ALL buffers, sizes, modes, contents and operation histories):
-  * every history over write / write-from-descriptor / write_line / read / peek / drop /
-    read_line / peek_line / drop_line / flush / opt_set, started from `cbuf_create`, is accepted step by
-    step by the FIFO specification with identical answers, and the abstraction (the unread
-    bytes) commutes with every step                              (`history_refines_fifo`);
-  * the invariant checked by `cbuf_is_valid` holds in every reachable state
-    (`reachable_valid`), hence `min ≤ size ≤ max` and `used ≤ size` (`size_bounds`);
-  * facts about the specification that say what "FIFO with exact drop accounting" means:
-    conservation of bytes, suffix property, no-drop mode loses nothing, all-or-nothing lines.
-  * beyond the property's own operation list, the rest of the public API of cbuf.c: replay / rewind
-    (a history of consumed bytes next to the FIFO), peek_to_fd / read_to_fd / replay_to_fd on a
-    descriptor that takes only some bytes, and copy / move between two buffers — every history over
-    all of these on one buffer (`history_refines_replay_fifo`) and on a pair of buffers
-    (`pair_history_refines_fifo`) is accepted by the specification with identical answers;
-  * the counters agree with the contents in every reachable state (`counters_agree`).
-  NOT modelled: replay_line / rewind_line / lines_reused, the per-buffer mutex, cbuf_destroy.
+  clause of the property / part of cbuf.h                          theorem
+  ---------------------------------------------------------------  ----------------------------------
+  bytes read = bytes written, in order, once; overflow discards
+    the oldest unread bytes and reports their number exactly;
+    no-drop shortens / refuses: every history over write /
+    write_from_fd / write_line / read / peek / drop / read_line /
+    peek_line / drop_line / flush / opt_set from cbuf_create is
+    accepted step by step by the FIFO spec, identical answers      history_refines_fifo
+  what that means on the spec: shape of every admissible answer,   spec_write_shape,
+    conservation, suffix, no-drop loses nothing                    spec_write_conservation,
+                                                                   spec_write_suffix, spec_nodrop_lossless
+  line reads: whole newline-terminated lines, all or nothing       spec_readLine_whole
+  counters agree with the contents (used, free, lines_used,        counters_agree, getters_agree
+    reused, lines_reused, is_empty, opt_get)
+  never more than max, size in [min,max], cbuf_is_valid in every   reachable_valid, size_bounds
+    reachable state
+  cbuf_create                                                      create_refines, create_none_iff,
+                                                                   create_refines_replay
+  FOR EVERY ADMISSIBLE GROWTH POLICY (all of the above and below   `(pol : Policy) [Admissible pol]`
+    take the policy as a parameter; default = the code's)          chunk_policy_admissible,
+    and for a different admissible policy at every step            pinned_policy_admissible,
+    (the model as the driver runs it, following the capacity       grow_before_you_lose,
+    the code under test reports)                                   history_refines_replay_fifo_any_policies,
+                                                                   pair_history_refines_fifo_any_policies,
+                                                                   inadmissible_choice_witness
+  replay / rewind / peek_to_fd / read_to_fd / replay_to_fd on a    history_refines_replay_fifo,
+    descriptor that takes only some bytes; replay_line /           spec_rewind_undoes_consume,
+    rewind_line (refinement steps of the replay FIFO)              spec_replay_suffix, spec_sink_prefix
+  what the line finder of the replay side returns starts at a      spec_findReplay_line_start,
+    line boundary; never more than is replayable; rewind_line is   spec_findReplay_bounded,
+    a rewind by the bytes found                                    spec_rewindLine_is_rewind
+  copy / move between two buffers                                  pair_history_refines_fifo
+  EVERY function declared in cbuf.h is covered by the model        header_covered, header_coverage_witness
+  per-buffer mutex: any concurrent history = the sequential        concurrent_history_linearizable
+    history of its calls in lock order (answers and final state),    (Cbuf/Lin.lean: exclusive,
+    which the FIFO spec accepts                                      settle_exec, calls_of_thread)
+  32-bit int arithmetic on indices does not overflow for           index_arithmetic_no_overflow,
+    max ≤ INT_MAX/2; sharpness; where the caller's length enters   length_arithmetic_no_overflow,
+                                                                   int_overflow_witnesses
+
+  NOT proved / not modelled:
+  * the locking discipline itself (every public function takes and releases the mutex exactly once,
+    never nested) is a property of the C text: the harness checks it on every call of every
+    generated history (`!LOCK` marker); the theorem starts from that discipline.  Lock ORDER of
+    cbuf_copy / cbuf_move (lowest address first, deadlock freedom) is not modelled.
+  * a closed form of the line finder of the replay side ("the k-th line start from the end"): the
+    specification is the list-level scan; proved of it: line-boundary property, bounds.
+  * `alloc - size` (size_meta) staying constant is true of `grow` by construction but not stated as
+    an invariant; the overflow theorem takes the bound on it as a hypothesis; the list of `int`
+    expressions is transcribed by hand from cbuf.c.
+  * cbuf_destroy has no model state (end of a history); realloc/malloc never fail in the model.
 -/
 import PdshVerif.Cbuf.PairRefine
+import PdshVerif.Cbuf.Lin
+import PdshVerif.Cbuf.Api
+import PdshVerif.Cbuf.ScanFacts
+import PdshVerif.Cbuf.IntBounds
 
 namespace PdshVerif.C13
 open PdshVerif.Cbuf
@@ -31,9 +73,9 @@ open PdshVerif.Cbuf
     `traceM` is the model's own annotated history (operation, answer, reported capacity);
     `acceptS` replays it on the specification, comparing every answer. -/
 theorem history_refines_fifo (mn mx : Int) (sm : Nat) (hsm : 0 < sm) (c : Cbuf)
-    (hc : create mn mx sm = some c) (ops : List Op) :
-    acceptS (abs c) (traceM c ops) = some (abs (runM c ops).2) := by
-  exact (run_refines (inv_create hsm hc).1 ops).1
+    (hc : create mn mx sm = some c) (ops : List Op) (pol : Policy := chunkPolicy) [Admissible pol] :
+    acceptS (abs c) (traceM c ops pol) = some (abs (runM c ops pol).2) := by
+  exact (run_refines (inv_create hsm hc).1 ops pol).1
 
 /-- the abstract state of a fresh buffer is the empty FIFO the specification starts from -/
 theorem create_refines (mn mx : Int) (sm : Nat) (c : Cbuf) (hc : create mn mx sm = some c) :
@@ -54,16 +96,16 @@ theorem create_none_iff (mn mx : Int) (sm : Nat) : create mn mx sm = none ↔ Sp
 
 /-- every reachable state satisfies the conjuncts of `cbuf_is_valid` -/
 theorem reachable_valid (mn mx : Int) (sm : Nat) (hsm : 0 < sm) (c : Cbuf)
-    (hc : create mn mx sm = some c) (ops : List Op) :
-    isValid (runM c ops).2 = true := by
-  exact isValid_of_inv (run_refines (inv_create hsm hc).1 ops).2
+    (hc : create mn mx sm = some c) (ops : List Op) (pol : Policy := chunkPolicy) [Admissible pol] :
+    isValid (runM c ops pol).2 = true := by
+  exact isValid_of_inv (run_refines (inv_create hsm hc).1 ops pol).2
 
 /-- the buffer never reports a size outside [min,max] nor holds more than its size -/
 theorem size_bounds (mn mx : Int) (sm : Nat) (hsm : 0 < sm) (c : Cbuf)
-    (hc : create mn mx sm = some c) (ops : List Op) :
-    let c' := (runM c ops).2
+    (hc : create mn mx sm = some c) (ops : List Op) (pol : Policy := chunkPolicy) [Admissible pol] :
+    let c' := (runM c ops pol).2
     c'.minsize ≤ c'.size ∧ c'.size ≤ c'.maxsize ∧ c'.used ≤ c'.size ∧ (contents c').length = c'.used := by
-  have hi := (run_refines (inv_create hsm hc).1 ops).2
+  have hi := (run_refines (inv_create hsm hc).1 ops pol).2
   exact ⟨hi.smin, hi.smax, hi.used, contents_length _⟩
 
 /-! ### what the specification itself guarantees (independent of the index model) -/
@@ -196,15 +238,25 @@ theorem spec_readLine_whole (f : Spec.Fifo) (len lines : Int) (hl : lines ≥ -1
     to a descriptor that takes `cap` bytes) on a freshly created buffer behaves like the FIFO with
     a history of consumed bytes -/
 theorem history_refines_replay_fifo (mn mx : Int) (sm : Nat) (hsm : 0 < sm) (c : Cbuf)
-    (hc : create mn mx sm = some c) (ops : List OpR) :
-    acceptSR (absR c) (traceMR c ops) = some (absR (runMR c ops).2) ∧
-    isValid (runMR c ops).2 = true := by
-  have h := runR_refines (inv_create hsm hc).1 ops
+    (hc : create mn mx sm = some c) (ops : List OpR) (pol : Policy := chunkPolicy) [Admissible pol] :
+    acceptSR (absR c) (traceMR c ops pol) = some (absR (runMR c ops pol).2) ∧
+    isValid (runMR c ops pol).2 = true := by
+  have h := runR_refines (inv_create hsm hc).1 ops pol
+  exact ⟨h.1, isValid_of_inv h.2⟩
+
+/-- the same with a DIFFERENT admissible growth policy at every step: this is the statement that
+    covers the model as the driver runs it against the code under test, following at every step
+    the capacity the code itself reported (`pinPolicy`, admissible by `pin_admissible`) -/
+theorem history_refines_replay_fifo_any_policies (mn mx : Int) (sm : Nat) (hsm : 0 < sm) (c : Cbuf)
+    (hc : create mn mx sm = some c) (ops : List (APolicy × OpR)) :
+    acceptSR (absR c) (traceMRp c ops) = some (absR (runMRp c ops).2) ∧
+    isValid (runMRp c ops).2 = true := by
+  have h := runRp_refines (inv_create hsm hc).1 ops
   exact ⟨h.1, isValid_of_inv h.2⟩
 
 /-- a fresh buffer has nothing to replay -/
 theorem create_refines_replay (mn mx : Int) (sm : Nat) (hsm : 0 < sm) (c : Cbuf) (hc : create mn mx sm = some c) :
-    Spec.create mn mx = some (absR c).f ∧ (absR c).hist = [] := by
+    Spec.create mn mx = some (absR c).f ∧ (absR c).hist = [] ∧ (absR c).wrapped = false := by
   refine ⟨create_refines mn mx sm c hc, ?_⟩
   have hi := (inv_create hsm hc).1
   unfold create at hc
@@ -217,32 +269,119 @@ theorem create_refines_replay (mn mx : Int) (sm : Nat) (hsm : 0 < sm) (c : Cbuf)
 /-- any history over two freshly created buffers, including cbuf_copy and cbuf_move in both
     directions, is accepted by the pair of specifications with identical answers -/
 theorem pair_history_refines_fifo (mn1 mx1 mn2 mx2 : Int) (sm : Nat) (hsm : 0 < sm) (a b : Cbuf)
-    (ha : create mn1 mx1 sm = some a) (hb : create mn2 mx2 sm = some b) (ops : List Op2) :
-    acceptS2 (absR2 (a, b)) (traceM2 (a, b) ops) = some (absR2 (runM2 (a, b) ops).2) ∧
-    isValid (runM2 (a, b) ops).2.1 = true ∧ isValid (runM2 (a, b) ops).2.2 = true := by
-  have h := run2_refines (s := (a, b)) ⟨(inv_create hsm ha).1, (inv_create hsm hb).1⟩ ops
+    (ha : create mn1 mx1 sm = some a) (hb : create mn2 mx2 sm = some b) (ops : List Op2)
+    (pol : Policy := chunkPolicy) [Admissible pol] :
+    acceptS2 (absR2 (a, b)) (traceM2 (a, b) ops pol) = some (absR2 (runM2 (a, b) ops pol).2) ∧
+    isValid (runM2 (a, b) ops pol).2.1 = true ∧ isValid (runM2 (a, b) ops pol).2.2 = true := by
+  have h := run2_refines (s := (a, b)) ⟨(inv_create hsm ha).1, (inv_create hsm hb).1⟩ ops pol
+  exact ⟨h.1, isValid_of_inv h.2.1, isValid_of_inv h.2.2⟩
+
+/-- two buffers, a different admissible growth policy at every step -/
+theorem pair_history_refines_fifo_any_policies (mn1 mx1 mn2 mx2 : Int) (sm : Nat) (hsm : 0 < sm) (a b : Cbuf)
+    (ha : create mn1 mx1 sm = some a) (hb : create mn2 mx2 sm = some b) (ops : List (APolicy × Op2)) :
+    acceptS2 (absR2 (a, b)) (traceM2p (a, b) ops) = some (absR2 (runM2p (a, b) ops).2) ∧
+    isValid (runM2p (a, b) ops).2.1 = true ∧ isValid (runM2p (a, b) ops).2.2 = true := by
+  have h := run2p_refines (s := (a, b)) ⟨(inv_create hsm ha).1, (inv_create hsm hb).1⟩ ops
   exact ⟨h.1, isValid_of_inv h.2.1, isValid_of_inv h.2.2⟩
 
 /-- the byte / line / replay counters agree with the contents in every reachable state -/
 theorem counters_agree (mn mx : Int) (sm : Nat) (hsm : 0 < sm) (c : Cbuf)
-    (hc : create mn mx sm = some c) (ops : List OpR) :
-    let c' := (runMR c ops).2
+    (hc : create mn mx sm = some c) (ops : List OpR) (pol : Policy := chunkPolicy) [Admissible pol] :
+    let c' := (runMR c ops pol).2
     c'.used = (absR c').f.q.length ∧ c'.size - c'.used = (absR c').f.size - (absR c').f.q.length ∧
     linesUsed c' = Spec.countNl (absR c').f.q ∧ reused c' = (absR c').hist.length ∧
     (c'.used = 0 ↔ (absR c').f.q = []) ∧ reused c' + c'.used ≤ c'.size := by
-  have hi := (runR_refines (inv_create hsm hc).1 ops).2
-  generalize (runMR c ops).2 = c' at hi
+  have hi := (runR_refines (inv_create hsm hc).1 ops pol).2
+  generalize (runMR c ops pol).2 = c' at hi
   simp only [absR_f, absR_hist, abs_q, abs_size, contents_length, hist_length]
   refine ⟨trivial, trivial, linesUsed_refines hi, trivial, ?_, (reused_facts hi).1⟩
   constructor
   · intro h; exact List.eq_nil_of_length_eq_zero (by rw [contents_length]; exact h)
   · intro h; have := contents_length c'; rw [h] at this; exact this.symm
 
+/-- the getters that have no operation of their own -- `cbuf_lines_reused`, `cbuf_is_empty`,
+    `cbuf_free`, `cbuf_opt_get` -- agree with the abstract state in every reachable state -/
+theorem getters_agree (mn mx : Int) (sm : Nat) (hsm : 0 < sm) (c : Cbuf)
+    (hc : create mn mx sm = some c) (ops : List OpR) (pol : Policy := chunkPolicy) [Admissible pol] :
+    let c' := (runMR c ops pol).2
+    linesReused c' = Spec.linesReused (absR c') ∧
+    (isEmpty c' = true ↔ (absR c').f.q = []) ∧
+    free c' = (absR c').f.size - (absR c').f.q.length ∧
+    (Spec.optSet (absR c').f (optGet c')).2 = (absR c').f := by
+  have hi := (runR_refines (inv_create hsm hc).1 ops pol).2
+  generalize (runMR c ops pol).2 = c' at hi
+  refine ⟨linesReused_refines hi, ?_, ?_, ?_⟩
+  · simp only [isEmpty, decide_eq_true_eq, absR_f, abs_q]
+    constructor
+    · intro h; exact List.eq_nil_of_length_eq_zero (by rw [contents_length]; exact h)
+    · intro h; have := contents_length c'; rw [h] at this; exact this.symm
+  · simp [free, contents_length]
+  · simp only [absR_f]
+    unfold optGet Spec.optSet
+    cases hm : c'.mode <;> simp [abs, absMode, hm, Gen.CBUF_NO_DROP, Gen.CBUF_WRAP_ONCE, Gen.CBUF_WRAP_MANY]
+
+/-! ### the whole header -/
+
+/-- EVERY function cbuf.h declares (the list is regenerated from the header of the tree under test
+    on every run) is covered by the model: as an operation of the histories, as a getter proved
+    equal to the abstract value, or as start / end of a history (`Cbuf/Api.lean`).  A function
+    added to the header makes this theorem fail to build. -/
+theorem header_covered : Gen.CBUF_API.all apiCovers = true := by decide
+
+/-- the coverage test is not vacuous: it refuses a name the model does not know, and the header
+    does declare functions -/
+theorem header_coverage_witness : apiCovers "cbuf_shrink_to_fit" = false ∧ Gen.CBUF_API.length > 0 := by
+  decide
+
+/-! ### the per-buffer mutex: concurrent histories are sequential histories -/
+
+/-- the buffer as a data structure whose calls are critical sections of its mutex: every public
+    function is `lock; <the step function the theorems above are about>; unlock` (the discipline is
+    checked on the C code by the harness on every call: exactly one lock and one unlock per call,
+    never nested) -/
+def cbufSys (pol : Policy) : Lin.Sys Cbuf OpR Out where
+  stepFn c op := stepMR c op pol
+  body op := [fun c => (stepMR c op pol).2]
+  body_ok _ _ := rfl
+
+theorem seqRun_eq_runMR (pol : Policy) {τ : Type} (c : Cbuf) (calls : List (τ × OpR)) :
+    (Lin.seqRun (cbufSys pol) c calls).1 = (runMR c (calls.map (·.2)) pol).2 ∧
+    (Lin.seqRun (cbufSys pol) c calls).2.map (·.2.2) = (runMR c (calls.map (·.2)) pol).1 := by
+  induction calls generalizing c with
+  | nil => exact ⟨rfl, rfl⟩
+  | cons p rest ih =>
+    obtain ⟨t, op⟩ := p
+    have := ih (stepMR c op pol).2
+    simp only [Lin.seqRun, cbufSys, List.map_cons, runMR, List.map] at this ⊢
+    exact ⟨this.1, by rw [this.2]⟩
+
+/-- LINEARIZABILITY of the buffer under its mutex: whatever the threads and the schedule, an
+    execution that starts and ends with the mutex free leaves the buffer in the state, and gives
+    every call the answer, of the SEQUENTIAL history of the calls in the order in which they took
+    the mutex -- and that sequential history is accepted by the FIFO specification
+    (`history_refines_replay_fifo`), the buffer being valid at the end.  Program order and real-time
+    order are respected by construction (`Lin.calls_of_thread`, `Lin.calls_append`). -/
+theorem concurrent_history_linearizable {τ : Type} [DecidableEq τ] (mn mx : Int) (sm : Nat) (hsm : 0 < sm)
+    (c c' : Cbuf) (hc : create mn mx sm = some c) (pol : Policy) [Admissible pol]
+    (evs : List (Lin.Ev τ OpR)) (outs : List (τ × OpR × Out))
+    (h : Lin.exec (cbufSys pol) { s := c, owner := none } evs = some ({ s := c', owner := none }, outs)) :
+    let ops := (Lin.calls evs).map (·.2)
+    c' = (runMR c ops pol).2 ∧ outs.map (·.2.2) = (runMR c ops pol).1 ∧
+    acceptSR (absR c) (traceMR c ops pol) = some (absR c') ∧ isValid c' = true := by
+  have hl := Lin.linearizable (cbufSys pol) c c' evs outs h
+  obtain ⟨h1, h2⟩ := seqRun_eq_runMR pol c (Lin.calls evs)
+  rw [hl] at h1 h2
+  simp only at h1 h2
+  have hr := history_refines_replay_fifo mn mx sm hsm c hc ((Lin.calls evs).map (·.2)) pol
+  refine ⟨h1, h2, ?_, ?_⟩
+  · rw [h1]; exact hr.1
+  · rw [h1]; exact hr.2
+
 /-! what the replay side of the specification means -/
 
 /-- rewinding what was just consumed restores the queue and the history -/
 theorem spec_rewind_undoes_consume (r : Spec.RFifo) (n : Nat) (hn : n ≤ r.f.q.length) :
-    let r' : Spec.RFifo := { f := { r.f with q := r.f.q.drop n }, hist := r.hist ++ r.f.q.take n }
+    let r' : Spec.RFifo := { r with f := { r.f with q := r.f.q.drop n }, hist := r.hist ++ r.f.q.take n }
     (Spec.rewind r' n).1 = n ∧ (Spec.rewind r' n).2 = r := by
   simp only [Spec.rewind]
   have h1 : ¬ ((n : Int) < -1) := by omega
@@ -283,6 +422,68 @@ theorem spec_sink_prefix (want : List UInt8) (cap : Nat) :
     · simp only [hc, if_false]
       exact ⟨(take_min_length want cap).symm, Or.inl trivial⟩
 
+/-! ### the line-level replay side -/
+
+/-- what `cbuf_find_replay_line` reports starts at a line boundary: it is preceded by a newline, or
+    it is the whole history and nothing was ever lost ("the first line written in does not need a
+    preceding newline") -/
+theorem spec_findReplay_line_start (hist : List UInt8) (wrapped : Bool) (chars lines : Int) :
+    let m := (Spec.findReplay hist wrapped chars lines).1
+    m > 0 → (m = hist.length ∧ wrapped = false) ∨ (m < hist.length ∧ hist[hist.length - 1 - m]? = some 10) :=
+  findReplay_line_start hist wrapped chars lines
+
+/-- it never reports more bytes than are replayable -/
+theorem spec_findReplay_bounded (hist : List UInt8) (wrapped : Bool) (chars lines : Int) :
+    (Spec.findReplay hist wrapped chars lines).1 ≤ hist.length :=
+  findReplay_le hist wrapped chars lines
+
+/-- `cbuf_rewind_line` is a `cbuf_rewind` by the bytes of the lines found, or nothing -/
+theorem spec_rewindLine_is_rewind (r : Spec.RFifo) (len lines : Int) (h : 0 ≤ len) (hl : -1 ≤ lines) :
+    let n := (Spec.rewindLine r len lines).1
+    (n > 0 → (Spec.rewindLine r len lines).2 = (Spec.rewind r n).2) ∧
+    (¬ n > 0 → (Spec.rewindLine r len lines).2 = r) := by
+  have h1 : ¬ (len < 0 ∨ lines < -1) := by omega
+  unfold Spec.rewindLine
+  simp only [h1, if_false]
+  by_cases h0 : lines = 0
+  · simp [h0]
+  · simp only [h0, if_false]
+    by_cases hn : (Spec.findReplay r.hist r.wrapped len lines).1 > 0
+    · have hn' : ((Spec.findReplay r.hist r.wrapped len lines).1 : Int) > 0 := by omega
+      simp [hn, hn']
+    · have hn' : ¬ ((Spec.findReplay r.hist r.wrapped len lines).1 : Int) > 0 := by omega
+      simp [hn, hn']
+
+/-- non-vacuity: two lines are consumed, the newest one is replayed and rewound -/
+example :
+    (do let c ← create 8 8 1
+        acceptSR (absR c) (traceMR c [.base (.write [97, 10, 98, 99, 10]), .base (.read 5), .replayLine 9 1,
+          .rewindLine 9 1, .base (.readLine 9 1)])).isSome = true := by decide
+
+/-! ### 32-bit `int` arithmetic -/
+
+/-- in a valid state whose maximum size is at most INT_MAX/2 no expression over indices, counts
+    and sizes overflows a C `int`; a step of a copy loop never exceeds size + 1 whatever the
+    requested length is (so `i_in + len` is never formed) -/
+theorem index_arithmetic_no_overflow {c : Cbuf} (hi : Inv c) (hmax : c.maxsize ≤ INT_MAX / 2)
+    (hmeta : c.alloc - c.size ≤ 1 + 2 * 8) :
+    (∀ e ∈ indexExprs c, e.2 ≤ INT_MAX) ∧
+    (∀ i nleft m, i ≤ c.size → chunkStep c i nleft m ≤ c.size + 1 ∧ chunkStep c i nleft m ≤ INT_MAX) :=
+  ⟨index_exprs_safe hi hmax hmeta, fun i nleft m h => chunk_step_safe hi hmax i nleft m h⟩
+
+/-- the caller's length enters only `cb->alloc + n` (cbuf_grow) and `used + n`: the bound it needs -/
+theorem length_arithmetic_no_overflow {c : Cbuf} (hi : Inv c) (hmeta : c.alloc - c.size ≤ 1 + 2 * 8) (len : Nat)
+    (hlen : len + c.maxsize + (1 + 2 * 8) + Gen.CBUF_CHUNK ≤ INT_MAX) :
+    ∀ e ∈ lenExprs c len, e.2 ≤ INT_MAX :=
+  len_exprs_safe hi hmeta len hlen
+
+/-- both bounds are sharp: size = INT_MAX/2 + 1 overflows `i + size`; a WRAP_MANY write of INT_MAX
+    bytes into a buffer holding one byte overflows `used + n` -/
+theorem int_overflow_witnesses :
+    (let size := INT_MAX / 2 + 1; size + size > INT_MAX ∧ (size - 1) + (size - 1) ≤ INT_MAX) ∧
+    (1 : Nat) + INT_MAX > INT_MAX :=
+  ⟨index_overflow_witness, len_overflow_witness⟩
+
 /-- non-vacuity of the extended theorems: replay after a read, rewind, a short descriptor write,
     then copy and move between two buffers -/
 example :
@@ -292,6 +493,58 @@ example :
           [.on false (.base (.write [97, 10, 98, 99])), .on false (.base (.read 3)), .on false (.replay 2),
            .on false (.rewind 1), .on false (.readToFd (-1) 1), .copy false (-1), .move false 1,
            .on true (.base (.read 9)), .on true (.replayToFd (-1) 2)])).isSome = true := by decide
+
+/-! ### the growth policy is a parameter -/
+
+/-- the policy of the code as it is (round the needed allocation up to the next CBUF_CHUNK
+    multiple) is admissible -/
+theorem chunk_policy_admissible : Admissible chunkPolicy := inferInstance
+
+/-- following an observed capacity is admissible whatever was observed -/
+theorem pinned_policy_admissible (base : Policy) [Admissible base] (sizeMeta sObs : Nat) :
+    Admissible (pinPolicy base sizeMeta sObs) := inferInstance
+
+/-- admissibility is decidable choice by choice (`Policy.admAt`), and an admissible policy passes
+    the test at every point -/
+theorem admissible_decidable_pointwise (pol : Policy) [Admissible pol] (alloc n mn mx : Nat) :
+    pol.admAt alloc n mn mx = true := admAt_of_admissible pol alloc n mn mx
+
+/-- what admissibility buys, and all the proofs use of it -- "grow before you lose": after the
+    growth step of any writing call the request fits into the free space or the buffer has its
+    maximum size; the capacity never shrinks and never exceeds the maximum; nothing held is lost -/
+theorem grow_before_you_lose {c : Cbuf} (hi : Inv c) (len : Nat) (pol : Policy) [Admissible pol] :
+    let c' := (maybeGrow c len pol).1
+    (len ≤ c'.size - c'.used ∨ c'.size = c'.maxsize) ∧ c.size ≤ c'.size ∧ c'.size ≤ c'.maxsize ∧
+    contents c' = contents c ∧ hist c' = hist c ∧ Inv c' := by
+  have g := maybeGrow_ok hi len pol
+  have w := maybeGrow_whole hi len pol
+  refine ⟨g.enough, g.sizeLo, g.inv.smax, g.contents, ?_, g.inv⟩
+  have h1 := whole_eq g.inv
+  have h2 := whole_eq hi
+  rw [w, h2, g.contents] at h1
+  exact (List.append_cancel_right h1).symm
+
+/-- an inadmissible choice is observable: a policy that asks for less than is needed leaves a
+    request that does not fit although the buffer is not at its maximum (witness) -/
+theorem inadmissible_choice_witness :
+    (do let c ← create 2 50 1
+        let c' := (maybeGrow c 10 (fun alloc _ _ _ => alloc + 1)).1
+        some (decide (10 ≤ c'.size - c'.used ∨ c'.size = c'.maxsize))) = some false := by decide
+
+/-- geometric growth (harmless change C13-H2): at least double the allocation -/
+def doublingPolicy : Policy := fun alloc n _ _ => max (2 * alloc) (alloc + n)
+
+instance doubling_admissible : Admissible doublingPolicy :=
+  ⟨fun alloc n _ _ => by simp only [doublingPolicy]; omega⟩
+
+/-- non-vacuity of the policy parameter: the same history is accepted under geometric growth, and
+    the two policies really choose different capacities -/
+example :
+    (do let c ← create 2 40 1
+        let ops : List OpR := [.base (.write [97, 10, 98]), .base (.write [99, 100, 10, 101]), .base (.readLine 8 1),
+          .replay 2, .base (.read 3)]
+        let _ ← acceptSR (absR c) (traceMR c ops doublingPolicy)
+        some (decide ((runMR c ops doublingPolicy).2.size ≠ (runMR c ops).2.size))) = some true := by decide
 
 /-- non-vacuity: a concrete history with growth, wrap-around and a line read is accepted -/
 example :
